@@ -305,10 +305,10 @@ func slice(x, lo, hi, max value) value {
 }
 
 // lookup returns x[idx] where x is a map.
-func lookup(instr *ssa.Lookup, x, idx value) value {
+func (i *interpreter) lookup(instr *ssa.Lookup, x, idx value) value {
 	switch x := x.(type) { // map or string
 	case *omap:
-		v, ok := x.lookup(idx)
+		v, ok := x.lookup(i, idx)
 		if !ok {
 			v = zero(instr.X.Type().Underlying().(*types.Map).Elem())
 		}
@@ -970,7 +970,7 @@ func callBuiltin(caller *frame, callpos token.Pos, fn *ssa.Builtin, args []value
 		switch m := args[0].(type) {
 		case *omap:
 			caller.i.monitorWrite(m)
-			m.delete(args[1])
+			m.delete(caller.i, args[1])
 		default:
 			panic(fmt.Sprintf("illegal map type: %T", m))
 		}
